@@ -141,11 +141,21 @@ class FunctionCurveBase(PointCurveBase):
         param_start = super().get_closest_param(point)
         point = np.array(point)
 
-        result = scipy.optimize.minimize(
-            lambda t: f.norm(self.get_point(t[0]) - point), (param_start,), bounds=(self.bounds,)
+        # the best of the coarse samples is not farther than its two neighbours so there is a minimum
+        # between them; distance to an interpolated curve is not smooth at its defining points,
+        # therefore search that bracket with a derivative-free method
+        step = (self.bounds[1] - self.bounds[0]) / (len(self.discretize()) - 1)
+        lower = max(self.bounds[0], param_start - step)
+        upper = min(self.bounds[1], param_start + step)
+
+        result = scipy.optimize.minimize_scalar(
+            lambda t: f.norm(self.get_point(t) - point), bounds=(lower, upper), method="bounded", options={"xatol": TOL * step}
         )
 
-        return result.x[0]
+        if f.norm(self.get_point(param_start) - point) <= result.fun:
+            return param_start
+
+        return result.x
 
     def get_point(self, param: float) -> NPPointType:
         self._check_param(param)
